@@ -166,6 +166,8 @@ def canon_tree(t):
         for key, v in t.items():
             if key == "p" and k in ("xfer", "mat", "marker"):
                 continue
+            if key == "compound" and k == "sel":
+                continue
             if key in ("cols", "common") and isinstance(v, list):
                 out[key] = sorted(v)
             else:
